@@ -28,8 +28,8 @@ PROPS = {
     "C10": {
         "claimed": True,
         "title": "Blind signatures and DLEQ proofs are algebraically correct and tamper-evident",
-        "lean": ["Gonuts.Props.C10"],
-        "streams": ["bdhke"],
+        "lean": ["Gonuts.Props.C10", "Gonuts.Tie.Spec"],
+        "streams": ["bdhke", "bdhke-spec"],
         "level": "proof",
         "technique": "Lean 4 theorems (Mathlib linear algebra) about blind/sign/unblind/verify/GenerateDLEQ/VerifyDLEQ/VerifyProofDLEQ "
                      "over an ABSTRACT module G over ZMod n (all primes n, all modules, arbitrary hash function) + a monitor stream that "
